@@ -141,7 +141,9 @@ def impl(case):
                                     over={k: c.get(k) for k in case["overrides"]})
         obs["files"] = files
         if case["compile"]:
-            mod = importlib.import_module(fname)
+            import glob as _glob       # since D96 the extension module is <file_name>_<sha256[:12]>; before it was <file_name>
+            so = sorted(_glob.glob(fname + "*.so"), key=os.path.getmtime)
+            mod = importlib.import_module(os.path.basename(so[-1]).split(".")[0] if so else fname)
             nd = len(case["states"])
             y = np.zeros(nd); par = np.zeros(NPARX)
             mod.stpnt(y, par, 0.0)
@@ -173,6 +175,36 @@ def impl_reject(case):
         return dict(rejected=False)
     except Exception as e:
         return dict(rejected=True, type=type(e).__name__, msg=str(e)[:160])
+    finally:
+        reset_pyrates()
+
+def impl_pi(case):
+    """support stream (tolerance 1e-12, never decides alone about slots): a model that uses `pi` is exported, compiled, and the
+    exported vector field at the STPNT point is compared with the default backend's (D108: the module constant PI is double precision)"""
+    import importlib, glob as _glob
+    import numpy as np
+    from pyr import reset_pyrates
+    from pyrates import CircuitTemplate, OperatorTemplate
+    from pyrates.frontend.template.node import NodeTemplate
+    def net():
+        op = OperatorTemplate(name="op", path=None, equations=case["equations"],
+                              variables={k: (v if "(" in str(v) else (int(v) if isinstance(v, int) else float(Fr(v)))) for k, v in case["variables"]})
+        return CircuitTemplate(name="c", nodes={"p": NodeTemplate(name="n", operators=[op], path=None)})
+    fname = "pi" + case["id"]
+    reset_pyrates()
+    try:
+        net().get_run_func("vfx", step_size=1e-3, file_name=fname, backend="fortran", float_precision="float64", auto=True, vectorize=False, solver="scipy")
+        src = open(fname + ".f90").read()
+        so = sorted(_glob.glob(fname + "*.so"), key=os.path.getmtime)
+        mod = importlib.import_module(os.path.basename(so[-1]).split(".")[0] if so else fname)
+        nd = len([1 for e in case["equations"]])
+        y = np.zeros(nd); par = np.zeros(NPARX); mod.stpnt(y, par, 0.0)
+        dy = mod.func(y, np.zeros(1, dtype=np.int32), par, 0, np.zeros((nd, nd), order="F"), np.zeros((nd, NPARX), order="F"))
+        reset_pyrates()
+        f, args, names, smap = net().get_run_func("vfd", step_size=1e-3, file_name="dpi" + case["id"], backend="default", float_precision="float64",
+                                                  vectorize=False, solver="scipy")
+        ref = np.array(f(0.0, np.array(y), np.zeros(nd), *args[3:]), dtype=np.float64)
+        return dict(dy=[float(v) for v in dy], ref=[float(v) for v in ref], pi_line=[l.strip() for l in src.split("\n") if ":: PI" in l])
     finally:
         reset_pyrates()
 
@@ -241,9 +273,9 @@ def gen_case(rng, cid, n=None, compile_=False, inexact=False):
         over["NPAR"] = rng.choice([36, 40])
     if rng.random() < 0.08:
         over["NDIM"] = ns + 1
-    # C18_INT_PARAMS=1: some defaults are Python ints.  Off by default: on the unchanged tree every such model fails to compile
-    # (loud RuntimeError from f2py, `integer :: a(1)`; repair proposed in fixes/fix_D1xx_C18_int_params.diff)
-    ints = [p for p in names if os.environ.get("C18_INT_PARAMS") == "1" and not inexact and rng.random() < 0.3]
+    # some defaults are Python ints (a = 2).  Before repair D107 (a87028c) every such model failed to compile (`integer :: a(1)`,
+    # loud RuntimeError from f2py); C18_INT_PARAMS=0 switches the stream off.
+    ints = [p for p in names if os.environ.get("C18_INT_PARAMS", "1") == "1" and not inexact and rng.random() < 0.3]
     pvals = [[p, (str(rng.choice([-3, -2, -1, 1, 2, 3])) if p in ints else val())] for p in names]
     return dict(id=str(cid), decl=decl, states=[[s, val()] for s in states], params=pvals, int_params=ints, eqs=eqs,
                 scenarios=scen, scen_as_str=bool(scen and len(scen) == 1 and rng.random() < 0.5), overrides=over, compile=compile_,
@@ -767,6 +799,16 @@ def check(ctx):
                 violation(ctx, write_replay(ctx, "counterexample", dict(what="a request that the auto export must refuse with ValueError was not refused",
                                                                          request=c["kwargs"], implementation_output=o)))
         ctx.note(f"rejections: {len(rej)} malformed auto requests refused with ValueError")
+        # models that use pi (support stream, relative tolerance 1e-12; a single-precision PI is off by 3e-8)
+        pis = [dict(id=str(i), equations=[f"x' = a*x - pi*x*{c} + b*pi", "z' = x - pi*z"],
+                    variables=[["x", "output(0.5)"], ["a", rng_a], ["z", "variable(0.25)"], ["b", "3/8"]])
+               for i, (c, rng_a) in enumerate([(2, "5/8"), (3, 2), (1, "-7/8")][:3 if thorough else 1])]
+        for c, o in zip(pis, run_impl(ctx, "c18", "impl_pi", pis, nworkers=1, per_case_timeout=180)):
+            bad = "err" in o or any(abs(a - b) > 1e-12 * max(1.0, abs(b)) for a, b in zip(o["dy"], o["ref"]))
+            if bad:
+                violation(ctx, write_replay(ctx, "counterexample", dict(what="exported vector field of a model that uses pi differs from the default backend's "
+                                                                            "by more than 1e-12 (relative) at the STPNT point", model=c, implementation_output=o)))
+        ctx.note(f"pi: {len(pis)} compiled models that use pi agree with the default backend to 1e-12")
     if bad_cf:   # the slot function itself left the closed form: the smallest parameter count is the replay, and the hint for shrinking models
         c, o = min(bad_cf, key=lambda co: co[0]["n"])
         ctx.c18_hint = c["n"]
